@@ -336,24 +336,39 @@ pub fn observe_bb(c: &J, ctx: &mut Ctx, bytes: Vec<u8>) -> J {
     obs["chroms"] = J::Array(chroms.iter().map(|(n, l)| json!([ctx.chrom_idx(n), ctx.pos_out(*l)])).collect());
     let id_of = |rest: &str| -> i64 { if uniq { *rests.get(rest).unwrap_or(&0) } else if rests.contains_key(rest) { -1 } else { 0 } };
     let mut read = vec![];
-    for (n, _l) in chroms.iter() {
+    let mut readok = 1;
+    'outer: for (n, _l) in chroms.iter() {
         // full span: [0, u32::MAX) so that entries reaching past the chromosome end are included
         match r.get_interval(n, 0, u32::MAX) {
             Ok(it) => {
                 for v in it {
                     match v {
                         Ok(v) => read.push(json!([ctx.chrom_idx(n), ctx.pos_out(v.start), ctx.pos_out(v.end), id_of(&v.rest)])),
-                        Err(e) => return json!({"result": "readerr", "err": e.to_string()}),
+                        Err(e) => { readok = 0; obs["readerr"] = json!(e.to_string()); break 'outer; }
                     }
                 }
             }
-            Err(e) => return json!({"result": "readerr", "err": e.to_string()}),
+            Err(e) => { readok = 0; obs["readerr"] = json!(e.to_string()); break 'outer; }
         }
     }
+    obs["readok"] = json!(readok);
     obs["read"] = J::Array(read);
     match r.item_count() { Ok(n) => obs["count"] = json!(n), Err(e) => return json!({"result": "readerr", "err": e.to_string()}) }
     match r.autosql() {
-        Ok(a) => obs["autosql"] = json!(a.unwrap_or_else(|| "<none>".to_string())),
+        Ok(a) => {
+            let got = a.unwrap_or_else(|| "<none>".to_string());
+            let norm = |t: &str| t.split_whitespace().collect::<Vec<_>>().join(" ");
+            obs["autosql"] = match c["autosql"].as_str() {
+                Some(sup) => json!(if got == sup { "same" } else { "differs" }),
+                None => {
+                    // "the three-field BED schema": chrom, chromStart, chromEnd and nothing else
+                    let n = norm(&got);
+                    let fields: Vec<&str> = n.split(';').collect();
+                    let ok = fields.len() == 4 && fields[0].ends_with("string chrom") && fields[1].contains("uint chromStart") && fields[2].contains("uint chromEnd");
+                    json!(if ok { "bed3" } else { "not-bed3" })
+                }
+            };
+        }
         Err(e) => return json!({"result": "readerr", "err": e.to_string()}),
     }
     obs["fieldCount"] = json!(r.info().header.field_count);
@@ -404,11 +419,12 @@ pub fn observe_bb(c: &J, ctx: &mut Ctx, bytes: Vec<u8>) -> J {
             for s in 0..lm {
                 for e in (s + 1)..=lm {
                     let mut ids = vec![];
+                    let mut qerr = 0;
                     match r.get_interval(n, ctx.pos_in(s), ctx.pos_in(e)) {
-                        Ok(it) => for v in it { match v { Ok(v) => ids.push(json!([ctx.pos_out(v.start), ctx.pos_out(v.end), id_of(&v.rest)])), Err(e) => return json!({"result": "readerr", "err": e.to_string()}) } },
-                        Err(e) => return json!({"result": "readerr", "err": e.to_string()}),
+                        Ok(it) => for v in it { match v { Ok(v) => ids.push(json!([ctx.pos_out(v.start), ctx.pos_out(v.end), id_of(&v.rest)])), Err(_) => { qerr = 1; break; } } },
+                        Err(_) => { qerr = 1; }
                     }
-                    qs.push(json!({"c": ctx.chrom_idx(n), "s": s, "e": e, "iv": ids}));
+                    qs.push(json!({"c": ctx.chrom_idx(n), "s": s, "e": e, "iv": ids, "err": qerr}));
                 }
             }
         }
